@@ -152,6 +152,7 @@ func genCase(r *rand.Rand, maxOps int) Case {
 	cs.Init = genInit(r, cs.Wf)
 	n := 1 + r.Intn(maxOps)
 	shard := cs.Shard
+	saved := [][2]string{}
 	for i := 0; i < n; i++ {
 		op := genOp(r, &cs, shard, cs.Wf)
 		if op.Op == "restart" {
@@ -160,6 +161,15 @@ func genCase(r *rand.Rand, maxOps int) Case {
 				op.Shard = cs.Shard
 				shard = cs.Shard
 			}
+		}
+		if op.Op == "save" && cs.Wf {
+			saved = append(saved, [2]string{op.Key, op.Cond.Name})
+		}
+		if op.Op == "saveStored" && cs.Wf && len(saved) > 0 && r.Intn(5) != 0 {
+			// mostly a condition this store has been given before (what Get can find)
+			p := rig.Pick(r, saved)
+			op.Key, op.Name = p[0], p[1]
+			op.Cond.Name, op.Cond.Up = p[1], p[0]
 		}
 		cs.Ops = append(cs.Ops, op)
 	}
